@@ -37,6 +37,9 @@ func (vr *TestDownstreamEncoderRequest) Decode(e enc.Encoder, req []byte) error 
 		req = rem
 	}
 
+	if len(req) < 1 {
+		return BadLen
+	}
 	var err error
 	vr.DownstreamEncoder, err = enc.FromCode(req[0])
 	if err != nil {
